@@ -69,16 +69,16 @@ theorem nested_succ (n : Nat) (ih : AllSpec n) (f : Nat) (st : CtlState) (s s' :
       have hid1 : f < s1.fns.length := by rw [c6]; exact hlt
       obtain ⟨ann, hV, hact⟩ := actOK_of_good (hw1.fns f h2 hid1) hid1
       have hfo : fnOf s1 f = fnOf s f := by simp only [VM.fnOf, c6]
-      let b : Base := ⟨s.data, s.linear, s.addr, s.curfunc, -2⟩
+      let b : Base := ⟨s.data, s.linear, s.addr, s.curfunc, -2, false⟩
       have hrun : Running b s1 ⟨f, ann, s.data.map cellOf, s.linear.length, s.addr.length + 1⟩ [] := by
-        refine ⟨c1, by rw [c2]; exact Int.le_refl 0, ?_, hact _ _ _, ⟨rfl, rfl, by rw [c3, hpc]⟩, by rw [c4]; exact List.suffix_refl _⟩
+        refine ⟨c1, by rw [c2]; exact Int.le_refl 0, ?_, hact _ _ _, ⟨rfl, rfl, by rw [c3, hpc]; exact (if_neg Bool.false_ne_true).mpr rfl⟩, by rw [c4]; exact List.suffix_refl _⟩
         apply inv_entry _ _ hV
         · show s1.pc.toNat = 0; rw [c2]; rfl
         · show s1.data.map cellOf = List.replicate (fnOf s1 f).params.length Cell.val ++ _
           rw [c9, hfo, hp0]; rfl
         · show s1.linear.length = _; rw [c4]
         · show s1.addr.length = _; rw [c3]; simp
-      obtain ⟨hw2, he2, hv2, d2, l2, a2, cu2, p2, su2⟩ := ih.run b s1 s2 _ v hw1 hrun rfl hm
+      obtain ⟨hw2, he2, hv2, d2, l2, a2, cu2, p2, su2⟩ := ih.run b s1 s2 _ v hw1 hrun rfl rfl hm
       exact ⟨s2, rfl, hw2, (TExt.same c6 c7).trans he2, hv2, d2, l2, a2, cu2, su2.trans c5⟩
 
 /-! ## `evalCallExpr` -/
@@ -654,9 +654,9 @@ theorem apply_succ (n : Nat) (ih : AllSpec n) (f : Val) (args : List Val) (s s' 
         have hid3 : fid < s3.fns.length := by rw [c6]; exact hid2
         obtain ⟨ann, hV, hact⟩ := actOK_of_good (hw3.fns fid hvf.1 hid3) hid3
         have hfo : fnOf s3 fid = fnOf s2 fid := by simp only [VM.fnOf, c6]
-        let b : Base := ⟨s.data, s.linear, s.addr, s.curfunc, -2⟩
+        let b : Base := ⟨s.data, s.linear, s.addr, s.curfunc, -2, false⟩
         have hrun : Running b s3 ⟨fid, ann, s.data.map cellOf, s.linear.length, s.addr.length + 1⟩ [] := by
-          refine ⟨c1, by rw [c2']; exact Int.le_refl 0, ?_, hact _ _ _, ⟨rfl, rfl, by rw [c3, c2, p2, a2]⟩,
+          refine ⟨c1, by rw [c2']; exact Int.le_refl 0, ?_, hact _ _ _, ⟨rfl, rfl, by rw [c3, c2, p2, a2]; exact (if_neg Bool.false_ne_true).mpr rfl⟩,
             by rw [c4, li2]; exact List.suffix_refl _⟩
           apply inv_entry _ _ hV
           · show s3.pc.toNat = 0; rw [c2']; rfl
@@ -664,7 +664,7 @@ theorem apply_succ (n : Nat) (ih : AllSpec n) (f : Val) (args : List Val) (s s' 
             rw [c9, hfo]
           · show s3.linear.length = _; rw [c4, li2]
           · show s3.addr.length = _; rw [c3, a2]; simp
-        obtain ⟨hw4, he4, hv4, d4, l4, a4, cu4, p4, su4⟩ := ih.run b s3 s' _ v hw3 hrun rfl hm
+        obtain ⟨hw4, he4, hv4, d4, l4, a4, cu4, p4, su4⟩ := ih.run b s3 s' _ v hw3 hrun rfl rfl hm
         have he : TExt s s' := (show TExt s s2 from TExt.same f2 l2).trans ((TExt.same c6 c7).trans he4)
         exact ⟨⟨hw4, he, ⟨d4, l4, a4, cu4, by rw [p4, hpc], by rw [su4, c5, su2]⟩⟩, hv4⟩
   · simp only [run_err] at hex; cases hex
@@ -841,8 +841,8 @@ theorem force_succ (n : Nat) (ih : AllSpec n) (id : Nat) (s s' : St) (v : Val) (
 theorem allSpec_zero : AllSpec 0 where
   exec := fun b s s' top rest i _ _ _ h => by simp only [VM.exec, run_throw] at h; cases h
   resolved := fun b s s' top rest f c0 args _ _ _ _ _ h => by simp only [VM.callResolved, run_throw] at h; cases h
-  loop := fun b st s s' _ _ _ h => by rw [runLoop_zero] at h; cases h
-  run := fun b s s' top v _ _ _ h => by simp only [VM.run, run_throw] at h; cases h
+  loop := fun b st s s' _ _ _ _ h => by rw [runLoop_zero] at h; cases h
+  run := fun b s s' top v _ _ _ _ h => by simp only [VM.run, run_throw] at h; cases h
   nested := fun f st s s' v _ _ _ _ _ h => by simp only [VM.nested, run_throw] at h; cases h
   eval := fun e s s' v _ _ h => by simp only [VM.evalCallExpr, run_throw] at h; cases h
   prep := fun f i args s s' _ _ h => by simp only [VM.prepareArgs, run_throw] at h; cases h
@@ -861,8 +861,8 @@ theorem allSpec (hP : PrimOK) (hQ : QuoteOK) : ∀ n, AllSpec n
     have ih := allSpec hP hQ n
     { exec := fun b s s' top rest i hw hr hf h => exec_succ n ih b s s' top rest i hw hr hf h
       resolved := fun b s s' top rest f c0 args hw hr hf hv ho h => resolved_succ n ih b s s' top rest f c0 args hw hr hf hv ho h
-      loop := fun b st s s' hw hl hb h => loop_succ n ih b st s s' hw hl hb h
-      run := fun b s s' top v hw hr hb h => run_succ n ih b s s' top v hw hr hb h
+      loop := fun b st s s' hw hl hb hm h => loop_succ n ih b st s s' hw hl hb hm h
+      run := fun b s s' top v hw hr hb hm h => run_succ n ih b s s' top v hw hr hb hm h
       nested := fun f st s s' v hw h2 hlt hp hpc h => nested_succ n ih f st s s' v hw h2 hlt hp hpc h
       eval := fun e s s' v hw hok h => eval_succ n ih e s s' v hw hok h
       prep := fun f i args s s' hw hok h => prep_succ n ih args f i s s' hw hok h
